@@ -303,6 +303,27 @@ fn part_containers(ctx: &Arc<Ctx>) {
 				None => ctxr.violation(&format!("{}: no metadata stored in the file", cont.name()), dname, case.clone()),
 			}
 		}
+		// the same after the tile compression label of the opened reader was overridden (--override-input-compression
+		// re-labels the tiles only), asked for the first time after the override and asked before and after it
+		for ov in 0..3u8 {
+			for ask_before in [false, true] {
+				if let Ok(mut r) = ct::open(&rt, cont, &w) {
+					let before = if ask_before { Some(r.get_tilejson().as_string()) } else { None };
+					let _ = catch(std::panic::AssertUnwindSafe(|| r.override_compression(ct::comp_from_id(ov))));
+					let after = r.get_tilejson().as_string();
+					let got: Value = serde_json::from_str(&after).unwrap_or(Value::Null);
+					let (so, go) = (src_json.as_object().cloned().unwrap_or_default(), got.as_object().cloned().unwrap_or_default());
+					for k in so.keys() {
+						if !["bounds", "minzoom", "maxzoom"].contains(&k.as_str()) && !so.get(k).zip(go.get(k)).is_some_and(|(a, b)| num_eq(a, b)) {
+							ctxr.violation(&format!("{}: returned TileJSON differs from the one given after the tile compression was overridden", cont.name()), &format!("{dname}: stored compression {comp}, override {ov}, asked before the override: {ask_before}: key {k:?}: given {:?}, returned {:?}", so.get(k), go.get(k)), case.clone());
+						}
+					}
+					if before.is_some_and(|b| b != after) {
+						ctxr.violation(&format!("{}: TileJSON of an opened reader changes when the tile compression is overridden", cont.name()), &format!("{dname}: override {ov}"), case.clone());
+					}
+				}
+			}
+		}
 		match ct::open(&rt, cont, &w) {
 			Err(e) => ctxr.violation(&format!("{}: container with a TileJSON document cannot be opened: {}", cont.name(), super::c01::norm_msg(&e)), &format!("{dname}: {e}"), case.clone()),
 			Ok(r) => {
@@ -331,7 +352,7 @@ fn part_containers(ctx: &Arc<Ctx>) {
 pub fn run(ctx: Arc<Ctx>) {
 	ctx.rule(
 		"values: all 1,112,064 one-character strings; all strings of length <= 3 over 20 escape-class characters (also as object keys); 36 numbers incl. -0, 1e21, 5e-324, max double, 2^53+-1; all nested values of depth <= 2 and width <= 2 over 7 leaves and three keys, depth 3 over every 401st (quick) / 53rd (thorough) depth-2 value; each through stringify -> own parser (equal value) and stringify -> serde_json (same value). \
-		 TileJSON: 6 documents x {versatiles, pmtiles, tar, directory} x 3 compressions written by the real writers; stored metadata (independently decoded) and the re-opened reader's TileJSON must equal the given document, zoom range and bounds only narrowed; served tiles.json checked through the real server. non-trivial = distinct values / documents",
+		 TileJSON: 6 documents x {versatiles, pmtiles, tar, directory} x 3 compressions written by the real writers; stored metadata (independently decoded) and the re-opened reader's TileJSON must equal the given document, zoom range and bounds only narrowed, also when the reader's tile compression label is overridden before / after the first access; served tiles.json checked through the real server. non-trivial = distinct values / documents",
 	);
 	ctx.assume("serde_json is the 'standard JSON parser'; numbers are compared as f64");
 	part_values(&ctx);
